@@ -197,6 +197,15 @@ func judgeReference(s string) {
 	}
 }
 
+// VerifC20RegistryChars: "<registry>/a" with the registry over host characters, ':' and the URL
+// delimiters '?', '#', '%': anything but host[:port] is refused (a registry is a URL authority: no
+// query, fragment or escape may ride in it).
+func VerifC20RegistryChars() {
+	S := verifrt.Param("S", 4)
+	reg := verifrt.StringOver("a0.-:?#%", 1, S)
+	judgeReference(reg + "/a")
+}
+
 // VerifC20Accept: every string up to S bytes over the characters that matter to the grammar.
 func VerifC20Accept() {
 	S := verifrt.Param("S", 5)
